@@ -54,6 +54,196 @@ theorem leB_total (a b : Bytes) : (leB a b || leB b a) = true := by
         · simp [h1, h2]
         · simpa [h1, h2] using ih ys
 
+theorem cmpBytes_eq_eq (a b : Bytes) (h : cmpBytes a b = .eq) : a = b := by
+  induction a generalizing b with
+  | nil => cases b with
+    | nil => rfl
+    | cons _ _ => simp [cmpBytes] at h
+  | cons x xs ih =>
+    cases b with
+    | nil => simp [cmpBytes] at h
+    | cons y ys =>
+      simp only [cmpBytes] at h
+      by_cases h1 : x < y
+      · simp [h1] at h
+      · by_cases h2 : y < x
+        · simp [h1, h2] at h
+        · simp only [h1, h2, if_false] at h
+          have : x = y := UInt8.le_antisymm (UInt8.not_lt.mp h2) (UInt8.not_lt.mp h1)
+          rw [this, ih ys h]
+
+theorem leB_antisymm (a b : Bytes) (h1 : leB a b = true) (h2 : leB b a = true) : a = b := by
+  unfold leB at h1 h2
+  induction a generalizing b with
+  | nil => cases b with
+    | nil => rfl
+    | cons _ _ => simp [cmpBytes] at h2
+  | cons x xs ih =>
+    cases b with
+    | nil => simp [cmpBytes] at h1
+    | cons y ys =>
+      simp only [cmpBytes] at h1 h2
+      by_cases hxy : x < y
+      · have : ¬ y < x := fun h => absurd (UInt8.lt_trans hxy h) (UInt8.lt_irrefl _)
+        simp [hxy, this] at h2
+      · by_cases hyx : y < x
+        · simp [hxy, hyx] at h1
+        · simp only [hxy, hyx, if_false] at h1 h2
+          have : x = y := UInt8.le_antisymm (UInt8.not_lt.mp hyx) (UInt8.not_lt.mp hxy)
+          rw [this, ih ys h1 h2]
+
+theorem leB_trans (a b c : Bytes) (h1 : leB a b = true) (h2 : leB b c = true) : leB a c = true := by
+  unfold leB at h1 h2 ⊢
+  induction a generalizing b c with
+  | nil => cases c <;> simp [cmpBytes]
+  | cons x xs ih =>
+    cases b with
+    | nil => simp [cmpBytes] at h1
+    | cons y ys =>
+      cases c with
+      | nil => simp [cmpBytes] at h2
+      | cons z zs =>
+        simp only [cmpBytes] at h1 h2 ⊢
+        by_cases hxy : x < y
+        · by_cases hyz : y < z
+          · simp [UInt8.lt_trans hxy hyz]
+          · by_cases hzy : z < y
+            · simp [hyz, hzy] at h2
+            · have : y = z := UInt8.le_antisymm (UInt8.not_lt.mp hzy) (UInt8.not_lt.mp hyz)
+              subst this; simp [hxy]
+        · by_cases hyx : y < x
+          · simp [hxy, hyx] at h1
+          · have hxy' : x = y := UInt8.le_antisymm (UInt8.not_lt.mp hyx) (UInt8.not_lt.mp hxy)
+            subst hxy'
+            simp only [hxy, if_false] at h1
+            by_cases hxz : x < z
+            · simp [hxz]
+            · by_cases hzx : z < x
+              · simp [hxz, hzx] at h2
+              · simp only [hxz, hzx, if_false] at h2 ⊢
+                exact ih ys zs h1 h2
+
+theorem leB_refl (a : Bytes) : leB a a = true := by
+  have := leB_total a a; simpa using this
+
+/-! `leComp` / `leComps`: the derived order of `Component` and the lexicographic order of component lists -/
+
+theorem leComp_total (a b : Nat × Bytes) : (leComp a b || leComp b a) = true := by
+  unfold leComp
+  by_cases h : a.1 = b.1
+  · have h' : b.1 = a.1 := h.symm
+    simp [h, leB_total]
+  · have h' : ¬ b.1 = a.1 := fun e => h e.symm
+    simp only [beq_iff_eq, h, h', if_false, Bool.or_eq_true, decide_eq_true_eq]
+    omega
+
+theorem leComp_antisymm (a b : Nat × Bytes) (h1 : leComp a b = true) (h2 : leComp b a = true) : a = b := by
+  unfold leComp at h1 h2
+  by_cases h : a.1 = b.1
+  · have h' : b.1 = a.1 := h.symm
+    simp [h] at h1 h2
+    exact Prod.ext h (leB_antisymm _ _ h1 h2)
+  · have h' : ¬ b.1 = a.1 := fun e => h e.symm
+    simp [h, h'] at h1 h2
+    omega
+
+theorem leComp_trans (a b c : Nat × Bytes) (h1 : leComp a b = true) (h2 : leComp b c = true) : leComp a c = true := by
+  unfold leComp at h1 h2 ⊢
+  by_cases hab : a.1 = b.1
+  · by_cases hbc : b.1 = c.1
+    · have hac : a.1 = c.1 := hab.trans hbc
+      simp [hab, hbc] at h1 h2
+      simp only [hac, beq_self_eq_true, if_true]
+      exact leB_trans _ _ _ h1 (by simpa [hab] using h2)
+    · have hac : ¬ a.1 = c.1 := fun e => hbc (hab.symm.trans e)
+      simp [hbc] at h2
+      simp [hac]; omega
+  · simp [hab] at h1
+    by_cases hbc : b.1 = c.1
+    · have hac : ¬ a.1 = c.1 := fun e => hab (e.trans hbc.symm)
+      simp [hac]; omega
+    · simp [hbc] at h2
+      have hac : ¬ a.1 = c.1 := by omega
+      simp [hac]; omega
+
+theorem leComps_total (a b : List (Nat × Bytes)) : (leComps a b || leComps b a) = true := by
+  induction a generalizing b with
+  | nil => simp [leComps]
+  | cons x xs ih =>
+    cases b with
+    | nil => simp [leComps]
+    | cons y ys =>
+      simp only [leComps]
+      by_cases h : x = y
+      · subst h; simpa using ih ys
+      · have h' : ¬ y = x := fun e => h e.symm
+        simp only [beq_iff_eq, h, h', if_false]
+        exact leComp_total x y
+
+theorem leComps_antisymm (a b : List (Nat × Bytes)) (h1 : leComps a b = true) (h2 : leComps b a = true) : a = b := by
+  induction a generalizing b with
+  | nil => cases b with
+    | nil => rfl
+    | cons _ _ => simp [leComps] at h2
+  | cons x xs ih =>
+    cases b with
+    | nil => simp [leComps] at h1
+    | cons y ys =>
+      simp only [leComps] at h1 h2
+      by_cases h : x = y
+      · subst h
+        simp only [beq_self_eq_true, if_true] at h1 h2
+        rw [ih ys h1 h2]
+      · have h' : ¬ y = x := fun e => h e.symm
+        simp only [beq_iff_eq, h, h', if_false] at h1 h2
+        exact absurd (leComp_antisymm x y h1 h2) h
+
+theorem leComps_trans (a b c : List (Nat × Bytes)) (h1 : leComps a b = true) (h2 : leComps b c = true) : leComps a c = true := by
+  induction a generalizing b c with
+  | nil => simp [leComps]
+  | cons x xs ih =>
+    cases b with
+    | nil => simp [leComps] at h1
+    | cons y ys =>
+      cases c with
+      | nil => simp [leComps] at h2
+      | cons z zs =>
+        simp only [leComps] at h1 h2 ⊢
+        by_cases hxy : x = y
+        · subst hxy
+          simp only [beq_self_eq_true, if_true] at h1
+          by_cases hxz : x = z
+          · subst hxz
+            simp only [beq_self_eq_true, if_true] at h2 ⊢
+            exact ih ys zs h1 h2
+          · simp only [beq_iff_eq, hxz, if_false] at h2 ⊢
+            exact h2
+        · simp only [beq_iff_eq, hxy, if_false] at h1
+          by_cases hyz : y = z
+          · subst hyz
+            simp only [beq_iff_eq, hxy, if_false]
+            exact h1
+          · simp only [beq_iff_eq, hyz, if_false] at h2
+            by_cases hxz : x = z
+            · subst hxz
+              exact absurd (leComp_antisymm x y h1 h2) hxy
+            · simp only [beq_iff_eq, hxz, if_false]
+              exact leComp_trans x y z h1 h2
+
+/-- `externs_order_independent`: whatever order the `--extern` arguments come in, the sorted list names the same files in the
+    same order (as component lists: `a//b` and `a/b` compare equal and keep their relative input order, and they are the same
+    file) — so the extern digests enter the key in an order that does not depend on the command-line order -/
+theorem sorted_externs_perm_eq (l1 l2 : List Bytes) (h : l1.Perm l2) :
+    (l1.mergeSort lePath).map comps = (l2.mergeSort lePath).map comps := by
+  have e1 := List.map_mergeSort (r := lePath) (s := leComps) (f := comps) (l := l1) (fun a _ b _ => rfl)
+  have e2 := List.map_mergeSort (r := lePath) (s := leComps) (f := comps) (l := l2) (fun a _ b _ => rfl)
+  rw [e1, e2]
+  apply List.Perm.eq_of_pairwise (le := fun a b => leComps a b = true)
+  · intro a b _ _ h1 h2; exact leComps_antisymm a b h1 h2
+  · exact List.pairwise_mergeSort (fun a b c => leComps_trans a b c) leComps_total _
+  · exact List.pairwise_mergeSort (fun a b c => leComps_trans a b c) leComps_total _
+  · exact (List.mergeSort_perm _ leComps).trans ((h.map comps).trans (List.mergeSort_perm _ leComps).symm)
+
 /-- sorting only reorders: the sorted externs are a permutation of the `--extern` paths in command-line order -/
 theorem sorted_externs_perm (l : List Bytes) : (l.mergeSort lePath).Perm l := List.mergeSort_perm l lePath
 
